@@ -41,6 +41,13 @@ Proof.
   - apply Base.Reflect.nodupb_NoDup. vm_compute. reflexivity.
 Qed.
 
+From CKC Require Import Model.Proj Proofs.ProjC09.
+(* the `chain7` line of the correspondence check is the constant `1 1 1 1` on seven distinct real cards:
+   v7 <= every v6, v7 = min v6, every v6 <= each of its v5, every v6 = min of its v5 *)
+Theorem C09_projection : forall chk ws, HandN 7 ws -> proj_chain7 chk ws = Ok [true; true; true; true].
+Proof. exact proj_chain7_const. Qed.
+
 Print Assumptions C09_chain.
 Print Assumptions C09_monotone.
 Print Assumptions C09_min_of_sub.
+Print Assumptions C09_projection.
